@@ -7,5 +7,10 @@ import Dblib.Model.Decimal
 import Dblib.Model.Dsn
 import Dblib.Model.NamePool
 import Dblib.Model.Capability
+import Dblib.Model.ChanTx
+import Dblib.Model.ChanTxDriver
+import Dblib.Model.Wire
+import Dblib.Props.C01
 import Dblib.Props.C15
+import Dblib.Props.C19
 import Dblib.Props.C20
